@@ -119,6 +119,22 @@ def verify_rule(ctx, report):
             v4 = False
             for d, cond, allowed, alll in an.constraints_at(bb):
                 c = strip(cond)
+                # id().is_some_and(|id| id == "v4")
+                neg0 = False
+                c0 = c
+                while c0.k == "unop" and c0.a[0] == "Not":
+                    neg0 = not neg0
+                    c0 = strip(c0.a[1])
+                if c0.k == "call" and c0.a[0].name == "is_some_and" and len(c0.a[1]) == 2 and P.match(c0.a[1][0], P.call(target="Enr::<K>::id", args=[P.param(1)])) is not None:
+                    truth0 = (("otherwise" in allowed or 1 in allowed) and 0 not in allowed) if not neg0 else allowed == {0}
+                    cl0 = closure_of(c0.a[1][1])
+                    if truth0 and cl0 is not None:
+                        from kernel import E
+                        body0 = closures.closure_return(ctx, cl0[0], cl0[1], [E("closure-arg")]) or []
+                        if len(body0) == 1:
+                            b0 = strip(body0[0])
+                            if b0.k == "call" and b0.a[0].name == "eq" and any(strip(x).k == "const" and strip(x).a[0] == b"v4" for x in b0.a[1]) and any(y.k == "closure-arg" for x in b0.a[1] for y in x.walk()):
+                                some = v4 = True
                 if c.k == "discr" and P.match(c.a[0], P.call(target="Enr::<K>::id", args=[P.param(1)])) is not None and allowed == {"Some"}:
                     some = True
                 if c.k == "call" and c.a[0].name in ("eq", "ne") and len(c.a[1]) == 2:
@@ -211,11 +227,23 @@ def pubkey_rule(ctx, report):
 
 
 def combined_enr_to_public(ctx, report, x):
+    """secp256k1 lookup first; the ed25519 lookup only when that failed; each
+    success is wrapped in the matching variant; both on the given map"""
     cfg = ctx.config
     an = ctx.an(x)
-    rets = ret_exprs(an)
+    g = an.cfg
+
+    def is_lookup(e, lib):
+        e = strip(e)
+        return e.k == "call" and e.a[0].name == "enr_to_public" and lib in (e.a[0].target_full() + e.a[0].full) and e.a[1] and strip(e.a[1][0]).k == "param"
+
+    def lib_of(e):
+        return "k256" if is_lookup(e, "k256") or is_lookup(e, "ecdsa") else "ed25519" if is_lookup(e, "ed25519") else None
+
     ok = False
     why = "unrecognised shape"
+    rets = ret_exprs(an)
+    # form 1: k256_lookup.map(Secp256k1).or_else(|_| ed25519_lookup.map(From))
     if len(rets) == 1:
         es = strip(rets[0][2])
         if es.k == "call" and es.a[0].name == "or_else" and len(es.a[1]) == 2:
@@ -230,12 +258,60 @@ def combined_enr_to_public(ctx, report, x):
                     second = strip(body[0])
                     if second.k == "call" and second.a[0].name == "map" and second.a[1]:
                         second = strip(second.a[1][0])
-            f_ok = first.k == "call" and first.a[0].name == "enr_to_public" and "k256" in first.a[0].target_full() + first.a[0].full and strip(first.a[1][0]).k == "param"
-            s_ok = second is not None and second.k == "call" and second.a[0].name == "enr_to_public" and "ed25519" in second.a[0].target_full() and strip(second.a[1][0]).k == "param"
-            ok = f_ok and s_ok
+            ok = lib_of(first) == "k256" and second is not None and lib_of(second) == "ed25519"
             why = "first=%s second=%s" % (short(first, 120), short(second, 120) if second is not None else None)
-    report.check("PUBKEY", "enr_to_public/combined", ok, "CombinedKey::enr_to_public tries the secp256k1 entry, then the ed25519 entry, of the same map",
-                 "CombinedKey::enr_to_public is not `k256 lookup, else ed25519 lookup` on the given map: " + why, fn=x.path, sp=x.span, config=cfg)
+    if not ok:
+        # form 2: explicit control flow
+        calls = [(b, t) for b, t in x.calls() if t.callee and t.callee.name == "enr_to_public"]
+        libs = {}
+        for b, t in calls:
+            e = an.call_expr(t, b.idx)
+            libs[lib_of(e)] = (b.idx, e)
+        if set(libs) == {"k256", "ed25519"} and len(calls) == 2:
+            kb, ke = libs["k256"]
+            eb, ee = libs["ed25519"]
+            # the ed25519 lookup runs only after the secp256k1 lookup failed
+            after_failure = False
+            for d, cond, allowed, alll in an.constraints_at(eb):
+                if cond.k == "discr" and allowed and allowed <= {"Err", "Break"}:
+                    c = strip(cond.a[0])
+                    if c.k == "call" and c.a[0].name == "branch" and c.a[1]:
+                        c = strip(c.a[1][0])
+                    if same_value(c, ke):
+                        after_failure = True
+            variants = {}
+            bad = []
+            for bb, idx, e, node in rets:
+                for alt in (strip(e).a[0] if strip(e).k == "phi" else [e]):
+                    a = strip(alt)
+                    if a.k == "agg" and a.a[0].endswith("Result::Err"):
+                        continue
+                    if a.k == "call" and a.a[0].name == "from_residual":
+                        continue
+                    inner = None
+                    if a.k == "agg" and a.a[0].endswith("Result::Ok"):
+                        inner = strip(a.a[1]["0"])
+                    elif a.k == "call" and a.a[0].name == "map" and a.a[1]:
+                        # lookup.map(Variant / From::from)
+                        src = strip(a.a[1][0])
+                        variants[lib_of(src)] = "map"
+                        continue
+                    if inner is None:
+                        bad.append(short(a, 100))
+                        continue
+                    if inner.k == "agg" and "CombinedPublicKey::" in inner.a[0]:
+                        p = ok_payload(inner.a[1]["0"])
+                        variants[lib_of(p) if p is not None else None] = inner.a[0].split("::")[-1]
+                    elif inner.k == "call" and inner.a[0].name in ("from", "into") and inner.a[1]:
+                        p = ok_payload(inner.a[1][0])
+                        variants[lib_of(p) if p is not None else None] = "from"
+                    else:
+                        bad.append(short(inner, 100))
+            good_var = variants.get("k256") in ("Secp256k1", "from", "map") and variants.get("ed25519") in ("Ed25519", "from", "map") and None not in variants
+            ok = after_failure and good_var and not bad and g.dominates(kb, eb)
+            why = "ed25519 lookup after secp256k1 failure: %s; variants %s; other returns %s" % (after_failure, variants, bad)
+    report.check("PUBKEY", "enr_to_public/combined", ok, "CombinedKey::enr_to_public tries the secp256k1 entry, then (only if that fails) the ed25519 entry, of the same map",
+                 "CombinedKey::enr_to_public is not `secp256k1 lookup, else ed25519 lookup` on the given map: " + why, fn=x.path, sp=x.span, config=cfg)
 
 
 def payload_rule(ctx, report, rule="PAYLOAD"):
